@@ -318,6 +318,10 @@ impl SecondaryStorage {
 
         changeset.push(EpochOp::DropTable(entry));
 
+        // Keep compactions and DELETEs of this table out while the changeset is built from the
+        // pinned snapshot and committed (both pin under this lock): a compaction that commits in
+        // between would add a RowSet this changeset does not delete.
+        let _guard = self.txn_mgr.lock_for_deletion(table_id.table_id).await;
         let pin_version = self.version.pin();
 
         if let Some(rowsets) = pin_version.snapshot.get_rowsets_of(table_id.table_id) {
